@@ -83,10 +83,10 @@ def build(init):
 
 
 def canon_den(den, n):
-    den = [(p, s) for p, s in den]
-    if all(s in (None, 0) for _, s in den):
-        return sorted(den)          # a strand-less location has no reading direction: compare as a set
-    if len(den) == n and len(set(p for p, _ in den)) == n and n > 0:
+    den = [tuple(d) for d in den]
+    if all(d[1] in (None, 0) for d in den):
+        return sorted(den, key=lambda d: (d[0], len(d)))          # a strand-less location has no reading direction: compare as a set
+    if len(den) == n and all(len(d) == 2 for d in den) and len(set(d[0] for d in den)) == n and n > 0:
         i = min(range(n), key=lambda j: den[j][0])
         den = den[i:] + den[:i]
     return den
